@@ -355,6 +355,8 @@ def run(ctx):
             bench.append(c[0])
     ship = shipped_directives()
     ctx.extra["shipped_directives"] = {k: sum(1 for s in ship if s[2] == k) for k in ("dbus", "exec", "stack")}
+    ctx.require(ctx.extra["shipped_directives"]["dbus"] >= 100 and ctx.extra["shipped_directives"]["exec"] >= 5 and ctx.extra["shipped_directives"]["stack"] >= 3 and bench,
+                "shipped directives found: %s, workbench builds: %d" % (ctx.extra["shipped_directives"], len(bench)))
     n_gen = {"dbus": 1200, "exec": 300, "stack": 300} if ctx.tier == "quick" else {"dbus": 25000, "exec": 6000, "stack": 6000}
     for b in bench:
         aad = b.aad
